@@ -90,6 +90,8 @@ class UpdateTaskState(Unit):
             "an attempt reporting into a workflow that is no longer active (failed, paused, canceled ...) is never consumed as a retry: the task keeps its completed status and its transitions are evaluated"},
         "C13.uts.retry_only_on_completing_report": {"props": ["C13", "C18"], "text":
             "an attempt is retried only by the report that completes it: a late or duplicate report for a record that was already completed (transitions decided) never reopens it"},
+        "C07.uts.join_not_restaged_while_running": {"props": ["C07"], "text":
+            "a join whose execution for the satisfied barrier is in flight on this route is not staged ready again by a further arriving branch (it runs once per satisfaction, not once per arrival)"},
         "C07.uts.ready_from_satisfied": {"props": ["C07"], "text":
             "the ready flag of a (re)staged non-command successor equals 'inbound criteria satisfied'"},
         "C04.uts.run_on_fail_marking": {"props": ["C04", "C10"], "text":
@@ -230,6 +232,12 @@ class UpdateTaskState(Unit):
                            "ready": S.mk_bool("pre_ready_%s" % tg)}
                     staged.append(ent)
                     tgt_pre[tg] = ent
+            # a join target whose execution (for an already satisfied barrier) is still in flight
+            join_running = False
+            if "j1" in targets and "j1" not in tgt_pre and e.branch(S.mk_bool("join_already_running").z):
+                join_running = True
+                sequence.append({"id": "j1", "route": 0, "ctxs": {"in": [0]}, "prev": {"y__t0": 0}, "next": {}, "status": st.RUNNING})
+                tasks["j1__r0"] = len(sequence) - 1
             # an unrelated branch's entry, staged earlier (ready or not): must never be touched
             unrelated = {"id": "z9", "route": 0, "ctxs": {"in": [0]}, "prev": {"y__t0": 0}, "ready": S.mk_bool("unrelated_ready")}
             staged.append(unrelated)
@@ -498,6 +506,14 @@ class UpdateTaskState(Unit):
                 gz = got.z if isinstance(got, SBool) else z3.BoolVal(bool(got))
                 O("C07.uts.ready_from_satisfied", gz == want)
             O("C07.uts.ready_from_satisfied", True)
+            if join_running:
+                restaged = [x for x in staged if x["id"] == "j1"]
+                rz = z3.Or([(x["ready"].z if isinstance(x["ready"], SBool) else z3.BoolVal(bool(x["ready"]))) for x in restaged]) \
+                    if restaged else z3.BoolVal(False)
+                ctx.oblige("C07.uts.join_not_restaged_while_running", z3.Not(rz),
+                           {"late_arrival_at_running_join": True}, dict(info))
+            else:
+                O("C07.uts.join_not_restaged_while_running", True)
             # run_on_fail
             fail_true = any(targets[i] == "fail" for i in true_idx)
             for x in staged:
